@@ -670,23 +670,62 @@ def resolve_kwdefaults(sign: inspect.Signature) -> Dict[str, Any]:
 #
 # The key refers to the id() of the function (preconditions and postconditions) or instance (invariants).
 #
-# The value is an *immutable* set which is replaced, never mutated. A context copied from another context
-# (*e.g.*, by ``asyncio.create_task`` or ``contextvars.copy_context``) shares the values of the original context
+# The value is an *immutable* collection of marks which is replaced, never mutated. A context copied from another
+# context (*e.g.*, by ``asyncio.create_task`` or ``contextvars.copy_context``) shares the values of the original context
 # by reference. If the value were a mutable set, all the tasks and threads running in copies of a context, which
 # had already executed a contract check, would disable each other's checks.
+class _InProgress:
+    """
+    Represent an immutable collection of the identifiers being checked in a context.
+
+    Every identifier comes with a flag which is lowered as soon as the check (or the call), which set the mark, ends.
+    A context copied *while* an identifier is marked (*e.g.*, a task created in the body of a method) shares the flag:
+    calls made in the copy are nested in the marking call as long as that call runs, but once it has ended, the task
+    or the thread which outlives it does not consider the identifier as being checked any more.
+    """
+
+    __slots__ = ("_flags",)
+
+    def __init__(self, flags: Mapping[int, List[bool]]) -> None:
+        """Initialize with the given mapping identifier -> [is the marking call still running?]."""
+        self._flags = flags
+
+    def __contains__(self, an_id: int) -> bool:
+        """Check whether ``an_id`` is marked and the marking call is still running."""
+        flag = self._flags.get(an_id, None)
+        return flag is not None and flag[0]
+
+    def added(self, an_id: int) -> "_InProgress":
+        """Return the collection with ``an_id`` marked anew."""
+        flags = {
+            another_id: flag for another_id, flag in self._flags.items() if flag[0]
+        }
+        flags[an_id] = [True]
+        return _InProgress(flags=flags)
+
+    def discarded(self, an_id: int) -> "_InProgress":
+        """Return the collection without ``an_id`` and lower the flag of its mark."""
+        flags = dict(self._flags)
+        flag = flags.pop(an_id, None)
+        if flag is not None:
+            flag[0] = False
+
+        return _InProgress(flags=flags)
+
+
 _IN_PROGRESS = contextvars.ContextVar(
-    "_IN_PROGRESS", default=frozenset()
-)  # type: contextvars.ContextVar[FrozenSet[int]]
+    "_IN_PROGRESS", default=_InProgress(flags=dict())
+)  # type: contextvars.ContextVar[_InProgress]
 
 
 def _add_in_progress(an_id: int) -> None:
     """Mark the function or the instance with ``an_id`` as being checked in the current context."""
-    _IN_PROGRESS.set(_IN_PROGRESS.get() | {an_id})
+    _IN_PROGRESS.set(_IN_PROGRESS.get().added(an_id))
 
 
 def _discard_in_progress(an_id: int) -> None:
     """Remove the mark that the function or the instance with ``an_id`` is being checked in the current context."""
-    _IN_PROGRESS.set(_IN_PROGRESS.get() - {an_id})
+    _IN_PROGRESS.set(_IN_PROGRESS.get().discarded(an_id))
 
 
 def decorate_with_checker(func: CallableT) -> CallableT:
